@@ -87,10 +87,13 @@ def _reset(job, force=False):
         # Build a 'feature' set that is ultimately going to contain commits
         # from the current feature branch + those from potentially earlier
         # (pre-rebase) versions of the feature branch
-        feature = set(src.get_commit_diff(dst))
+        feature = set(src.get_commit_diff(dst, ignore_merges=False))
 
-        # Analyse commits from the integration branch
-        wcommits = reversed(list(branch.get_commit_diff(dst)))
+        # Analyse commits from the integration branch, merge commits
+        # included: a merge made by hand (conflict resolution) is work
+        # that a reset would lose.
+        wcommits = reversed(list(
+            branch.get_commit_diff(dst, ignore_merges=False)))
         for rev in wcommits:
             if rev in feature:
                 continue
@@ -100,18 +103,15 @@ def _reset(job, force=False):
 
             # At this point, we want to avoid blocking on commits that were
             # part of the feature branch in the past. Given the branching
-            # algorithm:
-            # - if the commit is not a merge (has only one parent)
-            # - and if it is based on either a commit from the development
-            #   branch or the current 'feature' set.
-            #
-            # Then this commit once belonged to the feature branch,
-            # so we add it to the 'feature' set.
-            if len(rev.parents) == 1:
-                parent = rev.parents[0]
-                if parent in feature or dst.includes_commit(parent):
-                    feature.add(rev)
-                    continue
+            # algorithm: if every parent of the commit is either a commit
+            # from the development branch or in the current 'feature' set,
+            # then this commit once belonged to the feature branch (a plain
+            # commit, or a merge of the development branch into the feature
+            # branch), so we add it to the 'feature' set.
+            if rev.parents and all(p in feature or dst.includes_commit(p)
+                                   for p in rev.parents):
+                feature.add(rev)
+                continue
 
             # If we reach this point:
             #
